@@ -307,6 +307,26 @@ pub fn gen_track_cfg(r: &mut Rng, o: &GenOpts, kinds: &[Kind]) -> TrackCfg {
     let n = if o.hostile { ps_len(r) } else { r.below(65) as usize };
     let mut pps = vec![0u8; n];
     r.fill(&mut pps);
+    // structured parameter sets: byte patterns that mean something to bitstream tooling
+    // (Annex B start codes, emulation-prevention runs, all-zero / all-one sets)
+    for ps in [&mut sps, &mut pps] {
+        if r.chance(1, 6) && !ps.is_empty() {
+            let pat: &[u8] = match r.below(6) {
+                0 => &[0, 0, 0, 1],
+                1 => &[0, 0, 1],
+                2 => &[0, 0, 3],
+                3 => &[0, 0, 0, 0, 1],
+                4 => &[0xFF, 0xFF, 0xFF, 0xFF],
+                _ => &[0, 0, 0, 0],
+            };
+            let at = if r.chance(3, 4) { 0 } else { r.usize_below(ps.len()) };
+            for (i, b) in pat.iter().enumerate() {
+                if at + i < ps.len() {
+                    ps[at + i] = *b;
+                }
+            }
+        }
+    }
     let aac_profile = *r.pick(&VALID_AOT);
     let freq_index = r.below(13) as u8;
     let chan_conf = 1 + r.below(7) as u8;
